@@ -135,12 +135,14 @@ class Triage:
     """Turns the failing cases of one run into VIOLATION / KNOWN-FINDING lines."""
 
     def __init__(self, prop: str, reexec: Callable[[str, Any], list], shrinks: Callable[[Any], Iterable[Any]] | None = None,
-                 embeds_fn: Callable[[Any, Any], bool] | None = None, max_shrink_steps: int = 4000):
+                 embeds_fn: Callable[[Any, Any], bool] | None = None, max_shrink_steps: int = 4000,
+                 view: Callable[[Any], Any] | None = None):
         self.prop = prop
         self.reexec = reexec          # (fmt, case) -> list of (clause, message)
         self.shrinks = shrinks or generic_shrinks
         self.embeds = embeds_fn or embeds
         self.max_shrink_steps = max_shrink_steps
+        self.view = view or (lambda c: c)     # part of a case that identifies the finding (fingerprint input)
         self.shapes: dict[tuple, dict] = {}   # (fmt, clause, fp) -> info
         self.known_fps = {k["fingerprint"] for k in load_known().get("findings", []) if k.get("property") == prop}
         self.max_new_shapes = int(os.environ.get("VERIF_MAX_NEW_SHAPES", "12"))
@@ -208,7 +210,7 @@ class Triage:
                                         "message": f"failed in the sweep ({msg}) but not when re-executed alone", "first_case": case, "count": 1}
                 continue
             minimal = self.shrink(fmt, clause, case)
-            fp = fingerprint(self.prop, fmt, clause, minimal)
+            fp = fingerprint(self.prop, fmt, clause, self.view(minimal))
             key = (fmt, clause, fp)
             if key in self.shapes:
                 self.shapes[key]["count"] += 1
